@@ -883,7 +883,7 @@ func loadContracts(p *Prog, specDir string) (*ContractDB, error) {
 		}
 	}
 	for _, cc := range db.Callsites {
-		if strings.HasPrefix(cc.Callee, "var:") || strings.HasPrefix(cc.Callee, "elem:") {
+		if strings.HasPrefix(cc.Callee, "var:") || strings.HasPrefix(cc.Callee, "elem:") || strings.HasPrefix(cc.Callee, "field:") {
 			cc.Key = cc.Callee
 			continue
 		}
